@@ -263,6 +263,10 @@ def array_alternatives(S, t):
         if any(v is None for v in vals):
             return None
         kind = rg[1].rsplit('::', 1)[-1]
+        if kind == 'RangeFull':
+            return [whole]
+        if kind == 'RangeToInclusive':
+            return [whole[:vals[0] + 1]]
         if kind == 'RangeTo':
             return [whole[:vals[0]]]
         if kind == 'RangeFrom':
